@@ -328,3 +328,47 @@ def selection(term):
     if term[2] != elem:
         return None
     return elem, g
+
+
+# ---- per-agent arrays: the size belongs to the sort of the key ---------------------------------------------------------
+_KEY_SORT = {'project_index': 'P', 'lecturer_index': 'L', 'student_index': 'S'}
+_COUNT_SORT = {'num_projects': 'P', 'num_lecturers': 'L', 'num_students': 'S'}
+_LIST_SORT = {'proj_lower_quotas': 'P', 'proj_upper_quotas': 'P', 'proj_lecturers': 'P', 'project_lists': 'P', 'lec_lower_quotas': 'L', 'lec_targets': 'L',
+              'lec_upper_quotas': 'L', 'lecturer_lists': 'L', 'pairs': 'S'}
+_SORT_NAME = {'P': 'project', 'L': 'lecturer', 'S': 'student'}
+
+
+def size_sort(n):
+    """sort whose number of agents the term n is (model.num_projects, len(model.lec_targets), ...), else None"""
+    if n[0] == 'attr' and n[2] in _COUNT_SORT:
+        return _COUNT_SORT[n[2]]
+    if n[0] == 'call' and n[1] == ('sym', 'len') and len(n[2]) == 1 and n[2][0][0] == 'attr' and n[2][0][2] in _LIST_SORT:
+        return _LIST_SORT[n[2][0][2]]
+    return None
+
+
+def scatter_size_problems(t, seen=None):
+    """[c] * N filled at position pair.<sort>_index: N has to be the number of agents of THAT sort.  Reported only when N
+    is recognisably the size of another sort (IndexError, or entries for agents that do not exist).  -> [text]"""
+    from .terms import walk_unique, show
+    out = []
+    seen = set() if seen is None else seen
+    for x in walk_unique(t, seen):
+        if x[0] != 'accum' or not (isinstance(x[1], tuple) and x[1] and x[1][0] == 'bin' and x[1][1] == 'Mult'):
+            continue
+        a, b = x[1][2], x[1][3]
+        n = b if a[0] == 'list' else (a if b[0] == 'list' else None)
+        if n is None:
+            continue
+        have = size_sort(n)
+        if have is None:
+            continue
+        for en in x[2]:
+            key = en[1]
+            if en[0] in ('addidx', 'setidx', 'appendidx', 'extendidx', 'subidx') and isinstance(key, tuple) and key and key[0] == 'attr' and key[2] in _KEY_SORT:
+                want = _KEY_SORT[key[2]]
+                if want != have:
+                    txt = 'a list with one slot per %s (%s) is filled at %s' % (_SORT_NAME[have], show(x[1]), show(key))
+                    if txt not in out:
+                        out.append(txt)
+    return out
